@@ -13,3 +13,5 @@ package internal
 //@   ensures result == nil ==> re == nil && rc.Equal(commitment)
 //@   ensures re != nil ==> result != nil
 //@   ensures (re == nil && !rc.Equal(commitment)) ==> result != nil
+// The opening check attaches no party tag of its own.
+//@   ensures (forall x V :: !culprit(re, x)) ==> (forall x V :: !culprit(result, x))
